@@ -55,7 +55,7 @@ def run(rep, tier):
     rep.rule("C10.R2", "K8: execute -> register_work(data, pool_); pool create_work/create_thread pass sched_.get(); create_work creates on the given scheduler")
     rep.rule("C10.R3", "K6: schedule_from completes downstream with values only from scheduler_sender_receiver::set_value")
     rep.rule("C10.R4", "K7/K6: static policies mask stealing; cross-queue access only under enable_stealing")
-    rep.rule("C10.R5", "K8: scheduling_loop re-queues with thread_schedule_hint(num_thread)")
+    rep.rule("C10.R5", "K8/K2: scheduling_loop re-queues with thread_schedule_hint(num_thread) and records the worker in the task before entering its body; resume paths take their hint from it")
 
     D = facts(rep, driver("c10_exec.cpp"), [r"thread_pool_scheduler::operation_state::start$", r"std_thread_scheduler::operation_state::start$",
                                             r"thread_pool_scheduler::execute$", r"^pika::schedule_from_detail::operation_state::",
@@ -331,3 +331,17 @@ def run(rep, tier):
             rep.ok("C10.R5", fn, "all %d re-queue sites pass thread_schedule_hint(num_thread)" % len(rq), sites=len(rq))
         else:
             rep.bad("C10.R5", fn, fn.loc, "requeue-hint", "a yielding task must be re-queued with a hint for the worker it ran on: %s" % [T(e["args"][1]) for e in rq])
+        # a *resumed* task is re-queued with hint = last_worker_thread_num (execution_agent::do_resume,
+        # set_active_state); that number must be valid whenever somebody else can resume the task, i.e. the
+        # worker records it before it enters the body (the task itself records it only inside do_yield, after
+        # it has already made itself resumable, e.g. queued on a condition variable)
+        body = [(b, i, ev) for b, i, ev in fn.all_events() if ev.get("k") == "call" and callee_of(ev) == "pika::threads::detail::thread_data::operator()"]
+        if not body:
+            raise AnalysisBroken("%s: call of thread_data::operator() not found" % fn.full)
+        rec = lambda e: e.get("k") == "call" and callee_short(e) == "set_last_worker_thread_num" and e.get("args") and T(strip(e["args"][0])) == "num_thread"
+        if all(precedes_on_all_paths(fn, rec, (b, i)) for b, i, ev in body):
+            rep.ok("C10.R5", fn, "the worker number is recorded in the task before its body is entered")
+        else:
+            rep.bad("C10.R5", fn, loc_of(body[0][2]), "worker-not-recorded", "the task body is entered without set_last_worker_thread_num(num_thread): "
+                    "a resume that races with the task's first suspension re-queues it with hint -1 and, under a static policy, a "
+                    "hinted task runs its next phase on another worker")
